@@ -80,8 +80,9 @@ def gen_trace(seed, config, prop, tier):
         if destructive and "gc_inside" in kinds_A and r_f.random() < p_fault:
             steps.append({"fault": "gc_inside", "at": int(10 ** r_f.uniform(0, 4.3))})
         if op == "generate_mesh" or op == "generate_mesh_pair":
-            st = {"op": "generate_mesh", "slot": slot, "ne": r_op.randint(ne_lo, 12),
-                  "rse": r_op.random() < 0.5}
+            # small ne is where the boundary conditions of the resampler live: bias towards it
+            ne = R.choice_w(r_op, [(1, 6 if ne_lo == 1 else 0), (2, 18), (3, 14), (4, 10), (r_op.randint(5, 12), 52)])
+            st = {"op": "generate_mesh", "slot": slot, "ne": ne, "rse": r_op.random() < 0.5}
             if r_op.random() < 0.1:
                 st["rse"] = None  # keyword not given: library default
             if r_op.random() < 0.06:
